@@ -9,6 +9,7 @@ import FontVerif.Model.HintRound
 import FontVerif.Model.Scale
 import FontVerif.Model.HintMove
 import FontVerif.Model.FtMove
+import FontVerif.Drv.C03Prog
 namespace FontVerif.Drv.C03
 open FontVerif
 
@@ -65,6 +66,9 @@ def handle (cmd : String) (args : List String) : Option String :=
   match parseInts? args with
   | none => none
   | some xs =>
+    match C03Prog.handle cmd xs with
+    | some r => some r
+    | none =>
     match cmd, xs with
     -- FreeType side
     | "ft.mulfix", [a, b] => some (toString (FtCalc.mulFix a b))
